@@ -108,8 +108,12 @@ func (w *ammWorld) dump() string {
 			p.NativeLiabilities, p.ExternalLiabilities, p.NativeCustody, p.ExternalCustody, p.RewardPeriodNativeDistributed, p.RewardAmountExternal)
 	}
 	lps, _ := k.GetAllLiquidityProviders(w.ctx)
+	// canonical order of the dump: by pool symbol, then address (store order within a pool)
 	sort.Slice(lps, func(i, j int) bool {
-		return lps[i].Asset.Symbol+"_"+lps[i].LiquidityProviderAddress < lps[j].Asset.Symbol+"_"+lps[j].LiquidityProviderAddress
+		if lps[i].Asset.Symbol != lps[j].Asset.Symbol {
+			return lps[i].Asset.Symbol < lps[j].Asset.Symbol
+		}
+		return lps[i].LiquidityProviderAddress < lps[j].LiquidityProviderAddress
 	})
 	fmt.Fprintf(&sb, " lps %d", len(lps))
 	for _, l := range lps {
@@ -137,7 +141,12 @@ func (w *ammWorld) dump() string {
 			}
 		}
 	}
-	sort.Slice(bank, func(i, j int) bool { return bank[i].k < bank[j].k })
+	sort.Slice(bank, func(i, j int) bool {
+		if bank[i].a != bank[j].a {
+			return bank[i].a < bank[j].a
+		}
+		return bank[i].d < bank[j].d
+	})
 	fmt.Fprintf(&sb, " bank %d", len(bank))
 	for _, b := range bank {
 		fmt.Fprintf(&sb, " %s %s %s", b.a, b.d, b.v)
